@@ -162,6 +162,34 @@ prop("C18",
      **_res_common)
 
 
+# ---------------------------------------------------------------------------------------------
+# C10 filters
+prop("C10",
+     family="filter",
+     mc=lambda tier: [("MC_Filter", "MC_Filter.cfg")],
+     gen=lambda tier: ("MC_Filter", "MC_Filter.cfg"),
+     driver=lambda tier, seed, gen, out: ["filter", "-gen", gen, "-out", out, "-seed", str(seed)] +
+     _t(tier, ["-tables", "1", "-random", "800"], ["-tables", "4", "-random", "60000"]),
+     trace=("Trace_Filter", "Trace_Filter.cfg"),
+     required=["leaf:num:soft", "leaf:num:wrap", "leaf:seq:soft", "leaf:seq:wrap", "leaf:bool:soft", "leaf:bool:wrap",
+               "leaf:to1:soft", "leaf:toN:wrap", "op:in", "op:has", "op:nope", "tree:soft", "tree:wrap",
+               "verdict:true", "verdict:false", "random"],
+     level_text="The specification defines IsAllowed as logic with an explicit lexicographic order on symbol "
+                "sequences; TLC checks trichotomy, complement, <=/>= decomposition, transitivity, antisymmetry and "
+                "the nil rules on it (ASSUME over the value universe with prefixes and different lengths) and emits "
+                "every leaf case (class, nullable, operator in 9, value pair) and and/or tree shape of the bound. "
+                "The driver instantiates each leaf for every kind of its class (28 kinds, both cardinalities) on a "
+                "soft resource and on a wrapped struct, through order-preserving symbol maps; seeded random pairs "
+                "of real 64-bit integers, byte strings, zoned instants and strings are sent with their real byte "
+                "sequence (or an independently computed rank) so that TLC itself decides the expected verdict.",
+     level_note="The model-level laws are checked on the specification's Leaf (a state-less model: the ASSUMEs are "
+                "the model check); the code is bound by judging every recorded IsAllowed verdict. Filter values are "
+                "well-typed (typed nil for nil).",
+     assumptions=["filter values have the Go type of the field", "string order is byte-wise order of the UTF-8 text"],
+     coverage=False,
+     )
+
+
 def run(pid, tier, seed):
     P = PROPS[pid]
     if "run" in P:
